@@ -28,6 +28,37 @@ from . import tast
 _counter = itertools.count()
 
 
+def _fresh(v):
+    """fresh deep copy usable as a default_factory result (mappingproxy aware)."""
+    import collections
+    import copy
+    import dataclasses
+    if isinstance(v, types.MappingProxyType):
+        return types.MappingProxyType({_fresh(k): _fresh(x) for k, x in v.items()})
+    if isinstance(v, collections.ChainMap):
+        return collections.ChainMap(*[_fresh(m) for m in v.maps])
+    if isinstance(v, collections.defaultdict):
+        return collections.defaultdict(v.default_factory, {_fresh(k): _fresh(x) for k, x in v.items()})
+    if isinstance(v, (dict, collections.OrderedDict, collections.Counter)):
+        return type(v)({_fresh(k): _fresh(x) for k, x in v.items()})
+    if isinstance(v, tuple) and hasattr(v, "_fields"):
+        return type(v)(*[_fresh(x) for x in v])
+    if isinstance(v, (list, tuple, set, frozenset, collections.deque)):
+        return type(v)(_fresh(x) for x in v)
+    if dataclasses.is_dataclass(v) and not isinstance(v, type):
+        new = copy.copy(v)
+        for f in dataclasses.fields(v):
+            try:
+                object.__setattr__(new, f.name, _fresh(getattr(v, f.name)))
+            except Exception:
+                pass
+        return new
+    try:
+        return copy.deepcopy(v)
+    except Exception:
+        return v
+
+
 class Family:
     def __init__(self, name_prefix="vfam", future_annotations=False, extra_ns=None):
         self.modname = f"{name_prefix}_{next(_counter)}"
@@ -41,6 +72,7 @@ class Family:
         self._seg = 0
         self.exec_src(tast.PRELUDE)
         self.module._V = {}
+        self.module._fresh = _fresh
         if extra_ns:
             self.module.__dict__.update(extra_ns)
 
@@ -165,7 +197,7 @@ class Family:
             elif f.get("dmode") == "factory":
                 ref = self._defval(d["name"], f["n"], f["t"], f["dseed"], value_maker)
                 # a factory returning a fresh deep copy each time
-                fargs.append(f"default_factory=(lambda: __import__('copy').deepcopy({ref}))")
+                fargs.append(f"default_factory=(lambda: _fresh({ref}))")
             meta = dict(f.get("meta") or {})
             if f.get("alias") is not None:
                 meta["alias"] = repr(f["alias"])
